@@ -5,38 +5,6 @@ use crate::c08::*;
 
 /// Test generated for harness `c08::c08_quantile_single_valid_f64_n1` 
 ///
-/// Check for `assertion`: ""vquantile of a single valid element is unchanged by an inserted null""
-///
-/// # Warning
-///
-/// Concrete playback tests combined with stubs or contracts is highly
-/// experimental, and subject to change.
-///
-/// The original harness has stubs which are not applied to this test.
-/// This may cause a mismatch of non-deterministic values if the stub
-/// creates any non-deterministic value.
-/// The execution path may also differ, which can be used to refine the stub
-/// logic.
-
-#[test]
-fn kani_concrete_playback_c08_quantile_single_valid_f64_n1_13712611746709261860() {
-    let concrete_vals: Vec<Vec<u8>> = vec![
-        // -1
-        vec![255, 255, 255, 255],
-        // 1
-        vec![1],
-        // 0ul
-        vec![0, 0, 0, 0, 0, 0, 0, 0],
-        // 1ul
-        vec![1, 0, 0, 0, 0, 0, 0, 0],
-        // 0
-        vec![0],
-    ];
-    kani::concrete_playback_run(concrete_vals, c08_quantile_single_valid_f64_n1);
-}
-
-/// Test generated for harness `c08::c08_quantile_single_valid_f64_n1` 
-///
 /// Check for `cover`: "the null is inserted after the single valid element"
 ///
 /// # Warning
@@ -51,18 +19,50 @@ fn kani_concrete_playback_c08_quantile_single_valid_f64_n1_13712611746709261860(
 /// logic.
 
 #[test]
-fn kani_concrete_playback_c08_quantile_single_valid_f64_n1_3464633138697861395() {
+fn kani_concrete_playback_c08_quantile_single_valid_f64_n1_16366478324427584403() {
     let concrete_vals: Vec<Vec<u8>> = vec![
-        // -1
-        vec![255, 255, 255, 255],
+        // 1
+        vec![1, 0, 0, 0],
         // 1
         vec![1],
         // 1ul
         vec![1, 0, 0, 0, 0, 0, 0, 0],
         // 1ul
         vec![1, 0, 0, 0, 0, 0, 0, 0],
-        // 0
-        vec![0],
+        // 1
+        vec![1],
+    ];
+    kani::concrete_playback_run(concrete_vals, c08_quantile_single_valid_f64_n1);
+}
+
+/// Test generated for harness `c08::c08_quantile_single_valid_f64_n1` 
+///
+/// Check for `assertion`: ""vquantile of a single valid element is unchanged by an inserted null""
+///
+/// # Warning
+///
+/// Concrete playback tests combined with stubs or contracts is highly
+/// experimental, and subject to change.
+///
+/// The original harness has stubs which are not applied to this test.
+/// This may cause a mismatch of non-deterministic values if the stub
+/// creates any non-deterministic value.
+/// The execution path may also differ, which can be used to refine the stub
+/// logic.
+
+#[test]
+fn kani_concrete_playback_c08_quantile_single_valid_f64_n1_12039983938904789911() {
+    let concrete_vals: Vec<Vec<u8>> = vec![
+        // 1
+        vec![1, 0, 0, 0],
+        // 1
+        vec![1],
+        // 0ul
+        vec![0, 0, 0, 0, 0, 0, 0, 0],
+        // 1ul
+        vec![1, 0, 0, 0, 0, 0, 0, 0],
+        // 1
+        vec![1],
     ];
     kani::concrete_playback_run(concrete_vals, c08_quantile_single_valid_f64_n1);
 }
